@@ -7,9 +7,12 @@ variable names and the spelling of constants do not matter (parameter names `ker
   * threshold: the `if` that compares klen with a constant integer expression (`self.X`, `KernelDG.X`, a
     module constant, `5 * 10`, ...), either operand order, the parallel part in the `if` or in the `else`
     branch (`if klen < T: sequential else: parallel` reads as `klen >= T`), `not` resolved;
-  * slices: the comprehension `[kernel[s:e] for s, e in zip(A, B)]`; A and B are followed to their
-    definitions, each `[<elt> for t in range(num_cores)]` -- as a comprehension or as the loop
-    `A = []; for t in range(num_cores): A.append(<elt>)`;
+  * slices: the list with one `kernel[start(tid):end(tid)]` per `tid in range(num_cores)`, read as a STREAM over
+    tid (astutil_G5.Streams) whatever its spelling: `[kernel[s:e] for s, e in zip(A, B)]` with A, B built by
+    comprehensions or append loops, one comprehension / generator over `range(num_cores)` with the bounds inline,
+    an append loop with the bounds hoisted into locals, a list of `(start, end)` pairs, `enumerate(A)` with
+    `B[i]`, `A[tid]` / `B[tid]`, `list(zip(..))`, `range(0, num_cores)`, a hoisted range;  a filter, a step, another
+    range or a swapped bound changes or breaks the reading;
   * workload: the one hoisted arithmetic local that the two element expressions use; locals it is built from
     are inlined (`n = klen - 1; workload = int(n / num_cores) + 1`);
   * arithmetic is compiled to Lean `Nat` expressions: `int(a / b)` and `a // b` are Nat division (exact for the
@@ -17,12 +20,13 @@ variable names and the spelling of constants do not matter (parameter names `ker
     value is non-negative -- the correspondence compares the slices handed to the workers with the model's
     for every run); the operands of the commutative `+`, `*`, `min`, `max` are put in one canonical order
     (compound, variable, literal; then by text), so `1 + x` and `x + 1` give the same text;
-  * the poll loop: `while <now> - <start> <op> timeout` (or mirrored `timeout >= ...`), the constant of the one
+  * the poll loop: `while <now> - <start> <op> timeout` (or mirrored `timeout >= ...`; or `while True:` whose
+    first statement is the guard `if <now> - <start> > timeout: <terminate>; break`), the constant of the one
     `sleep(...)`, body `if alive: sleep else: join...; break` or the guard form `if not alive: ...; break` +
     `sleep`, a `while ... else`, the constant compared with `timeout` that switches the timeout off, and
     where `self.timed_out = True` stands (directly in the loop's `else`, or under `if p.is_alive()` with the kill).
 
-Insisted on: exactly one threshold test, one slice comprehension over `zip` of two `range(num_cores)` lists, one
+Insisted on: exactly one threshold test, one list of kernel slices indexed by `range(num_cores)`, one
 hoisted workload, one `while`, one sleep, one timed_out flag; a shape outside these raises (= failed generator).
 No module of the analysed tree is imported or executed.
 """
@@ -297,7 +301,16 @@ def gen_workers():
     if len(loops) != 1:
         raise TranslateError("expected exactly one while loop, found %d" % len(loops))
     loop = loops[0]
-    t, pol = U.strip_not(loop.test)
+    loop_test, loop_body, loop_else = loop.test, list(loop.body), list(loop.orelse)
+    ok, always = sc.try_ev(loop_test)
+    if ok and always is True and not loop_else and loop_body and isinstance(loop_body[0], ast.If) \
+            and not loop_body[0].orelse and loop_body[0].body and isinstance(loop_body[0].body[-1], ast.Break):
+        # `while True: if <timed out>: <terminate>; break; <poll>`  ==  `while not <timed out>: <poll>  else: <terminate>`
+        guard = loop_body[0]
+        loop_test = ast.UnaryOp(op=ast.Not(), operand=guard.test)
+        loop_else = list(guard.body[:-1]) or [ast.Pass()]
+        loop_body = loop_body[1:]
+    t, pol = U.strip_not(loop_test)
     if not (isinstance(t, ast.Compare) and len(t.ops) == 1 and type(t.ops[0]) in MIRROR):
         raise TranslateError("while condition is not `<now> - <start> <op> timeout`")
     left, right, wop = t.left, t.comparators[0], type(t.ops[0])
@@ -315,7 +328,7 @@ def gen_workers():
         raise TranslateError("expected one sleep(<constant>) in the poll loop")
     interval = sc.ev_num(sleeps[0].args[0], "sleep interval")
     # the loop body: `if any(p.is_alive() ...): sleep else: join...; break` (or the guard-clause form)
-    dec = U.split_if_else(loop.body)
+    dec = U.split_if_else(loop_body)
     if dec is None:
         raise TranslateError("poll loop body is not a single if/else")
     test, then, other = dec
@@ -330,7 +343,7 @@ def gen_workers():
         raise TranslateError("poll loop: the decision does not test is_alive()")
     if tpol != in_then:
         raise TranslateError("poll loop: sleeps when no worker is alive")
-    if not loop.orelse:
+    if not loop_else:
         raise TranslateError("poll loop has no else branch")
 
     # placement of `self.timed_out = True`
@@ -344,11 +357,11 @@ def gen_workers():
     flags = [n for n in ast.walk(fn) if is_flag(n)]
     if len(flags) != 1:
         raise TranslateError("expected exactly one `self.timed_out = True`, found %d" % len(flags))
-    if any(n is flags[0] for n in loop.orelse):
+    if any(n is flags[0] for n in loop_else):
         only_if_alive = False
     else:
         only_if_alive = None
-        for n in ast.walk(ast.Module(body=loop.orelse, type_ignores=[])):
+        for n in ast.walk(ast.Module(body=loop_else, type_ignores=[])):
             if isinstance(n, ast.If) and any(m is flags[0] for m in n.body):
                 if any(pl and U.call_name(a) == "is_alive" for a, pl in U.atoms(n.test, True)):
                     # the same `if` must also do the kill
